@@ -266,7 +266,7 @@ def product_cases():
 def plan(ctx):
     specs = [{"kind": "product", "mod": 4, "rem": r, "guard_off": r == 0} for r in range(4)]
     n = 12
-    per = 220 if not ctx.thorough else 6000
+    per = 160 if not ctx.thorough else 6000
     for i in range(n):
         specs.append({"kind": "gen", "i": i, "n": per, "depth": (1 + i % 2) if not ctx.thorough else (1 + i % 3),
                       "route": "mem" if i % 4 else ("json" if i % 8 == 0 else "yaml")})
